@@ -95,12 +95,78 @@ def inline_call(caller, bb, callee):
             caller["debug"].append(v)
 
 
+def _last_generic(ty):
+    """`Result<A, B<C, D>>` -> `B<C, D>`"""
+    if not ty.endswith(">") or "<" not in ty:
+        return None
+    inner = ty[ty.index("<") + 1:-1]
+    depth = 0
+    last = 0
+    for i, ch in enumerate(inner):
+        if ch in "<(":
+            depth += 1
+        elif ch in ">)":
+            depth -= 1
+        elif ch == "," and depth == 0:
+            last = i + 1
+    return inner[last:].strip()
+
+
+def expose_error_conversions(raw):
+    """`x?` converts the error with `From::from` inside std's `from_residual`, where no rule can
+    see it.  Where the two error types differ and the crate has an `impl From<E1> for E2`, the
+    conversion is written out at the `?`: `Err(<E2 as From<E1>>::from(e))` (and is then inlined
+    like any helper if the impl is new)."""
+    ids = {b["id"] for b in raw["bodies"]}
+    n = 0
+    for body in raw["bodies"]:
+        if body["kind"] == "promoted":
+            continue
+        for blk in list(body["blocks"]):
+            t = blk["term"]
+            if blk["cleanup"] or t["k"] != "call" or t["callee"].get("path") != "std::ops::FromResidual::from_residual" or t.get("target") is None:
+                continue
+            if t["dest"]["proj"] or not t["args"] or t["args"][0]["k"] not in ("copy", "move") or t["args"][0]["place"]["proj"]:
+                continue
+            dty = body["locals"][t["dest"]["local"]]["ty"]["s"]
+            aty = body["locals"][t["args"][0]["place"]["local"]]["ty"]["s"]
+            if not (dty.startswith("std::result::Result<") and aty.startswith("std::result::Result<")):
+                continue
+            e2, e1 = _last_generic(dty), _last_generic(aty)
+            if not e1 or not e2 or e1 == e2:
+                continue
+            fid = "<%s as std::convert::From<%s>>::from" % (e2, e1)
+            if fid not in ids:
+                continue
+            span = t["span"]
+            a = t["args"][0]["place"]["local"]
+            e_in = len(body["locals"]); body["locals"].append({"i": e_in, "ty": {"s": e1}, "mut": "true"})
+            e_out = len(body["locals"]); body["locals"].append({"i": e_out, "ty": {"s": e2}, "mut": "true"})
+            wrap = {"i": len(body["blocks"]), "cleanup": False,
+                    "stmts": [{"k": "assign", "place": {"local": t["dest"]["local"], "proj": []},
+                               "rv": {"k": "aggregate", "kind": {"k": "adt", "adt": "std::result::Result", "variant": "Err", "idx": 1, "fields": ["0"]},
+                                      "ops": [{"k": "move", "place": {"local": e_out, "proj": []}}]}, "span": span}],
+                    "term": {"k": "goto", "target": t["target"], "span": span}}
+            body["blocks"].append(wrap)
+            blk["stmts"].append({"k": "assign", "place": {"local": e_in, "proj": []},
+                                 "rv": {"k": "use", "op": {"k": "move", "place": {"local": a, "proj": [
+                                     {"k": "downcast", "variant": "Err", "idx": 1, "adt": "std::result::Result"}, {"k": "field", "i": 0, "name": "0", "ty": e1}]}}}, "span": span})
+            blk["term"] = {"k": "call", "callee": {"path": fid, "full": fid, "local": True, "name": "from", "generic_args": [], "trait": "std::convert::From",
+                                                    "resolved": fid},
+                           "args": [{"k": "move", "place": {"local": e_in, "proj": []}}], "dest": {"local": e_out, "proj": []},
+                           "target": wrap["i"], "unwind": None, "fn_span": span, "span": span}
+            n += 1
+            raw.setdefault("_exposed_from", set()).add(fid)
+    return raw, n
+
+
 def inline_new_functions(raw):
     with open(os.path.join(HERE, "known_functions.json")) as f:
         known = set(json.load(f)["functions"])
     bodies = {b["id"]: b for b in raw["bodies"]}
     new = [b for b in raw["bodies"] if b["kind"] in ("fn", "assoc_fn") and b["id"] not in known and not b.get("in_test")
-           and not b.get("derived") and b.get("impl_trait") is None and b["id"] != "main"]
+           and not b.get("derived") and (b.get("impl_trait") is None or (b.get("impl_trait") == "std::convert::From" and b["id"] in raw.get("_exposed_from", ())))
+           and b["id"] != "main"]
     if not new:
         return raw, []
     newids = {b["id"] for b in new}
@@ -756,6 +822,45 @@ def desugar_combinators(raw):
                 entry = _inline_closure(body, cb, args[0], arg_ops, res, after, span)
                 blk["term"] = {"k": "goto", "target": entry, "span": span}
                 called_closures.add(cid)
+                hosts.add(body["id"])
+                n_done += 1
+            elif path in ("std::iter::Iterator::try_for_each", "std::iter::Iterator::try_fold") and len(args) in (2, 3) and not dest["proj"]:
+                # for x in it { match f([acc,] x) { Ok(v) => [acc = v], Err(e) => break Err(e) } }  Ok([acc])
+                is_fold = path.endswith("try_fold")
+                cid = _closure_id_of(body, args[-1])
+                cb = bodies.get(cid)
+                rty = body["locals"][dest["local"]]["ty"]["s"]
+                if cb is None or not rty.startswith(("std::result::Result<", "std::option::Option<")) or (is_fold and len(args) != 3) or (not is_fold and len(args) != 2):
+                    continue
+                is_res = rty.startswith("std::result::Result<")
+                adt = "std::result::Result" if is_res else "std::option::Option"
+                goodv, goodi, badi = ("Ok", 0, 1) if is_res else ("Some", 1, 0)
+                res = _new_local(body, cb["locals"][0]["ty"])
+                d2 = _new_local(body, "isize")
+                sk = _loop_skeleton(body, args[0], span)
+                payload = _mv(res, [{"k": "downcast", "variant": goodv, "idx": goodi, "adt": adt}, {"k": "field", "i": 0, "name": "0", "ty": "item"}])
+                if is_fold:
+                    acc = _new_local(body, "accumulator")
+                    init = _new_block(body, [_assign(_pl(acc), {"k": "use", "op": copy.deepcopy(args[1])}, span)], {"k": "goto", "target": sk["pre"], "span": span})
+                    exit_bb = _new_block(body, [_assign(copy.deepcopy(dest), {"k": "aggregate", "kind": {"k": "adt", "adt": adt, "variant": goodv, "idx": goodi, "fields": ["0"]}, "ops": [_mv(acc)]}, span)],
+                                         {"k": "goto", "target": cont, "span": span})
+                    good_bb = _new_block(body, [_assign(_pl(acc), {"k": "use", "op": payload}, span)], {"k": "goto", "target": sk["header"], "span": span})
+                    cl_args = [_mv(acc), sk["elem"]]
+                else:
+                    unit = _new_local(body, "()")
+                    init = sk["pre"]
+                    exit_bb = _new_block(body, [_assign(_pl(unit), {"k": "aggregate", "kind": {"k": "tuple"}, "ops": []}, span),
+                                                _assign(copy.deepcopy(dest), {"k": "aggregate", "kind": {"k": "adt", "adt": adt, "variant": goodv, "idx": goodi, "fields": ["0"]}, "ops": [_mv(unit)]}, span)],
+                                         {"k": "goto", "target": cont, "span": span})
+                    good_bb = sk["header"]
+                    cl_args = [sk["elem"]]
+                bad_bb = _new_block(body, [_assign(copy.deepcopy(dest), {"k": "use", "op": _mv(res)}, span)], {"k": "goto", "target": cont, "span": span})
+                test = _new_block(body, [_assign(_pl(d2), {"k": "discriminant", "place": _pl(res), "adt": adt}, span)],
+                                  {"k": "switch", "discr": _mv(d2), "discr_ty": "isize", "targets": [[str(goodi), good_bb], [str(badi), bad_bb]], "otherwise": _unreachable(body, span), "span": span})
+                entry = _inline_closure(body, cb, args[-1], cl_args, res, test, span)
+                sk["wire"](exit_bb, entry)
+                blk["term"] = {"k": "goto", "target": init, "span": span}
+                used_closures.add(cid)
                 hosts.add(body["id"])
                 n_done += 1
             elif path == "std::iter::Iterator::fold" and len(args) == 3:
